@@ -187,8 +187,13 @@ def t_cont_session(rng):
     procedures with and without parameters, re-entered from later forms) as one program text: under a forced-collection
     schedule everything a saved continuation needs (stack copy, %ep environment, %bp chain) must survive"""
     import scheme_gen as G
-    forms = G.c05_session(rng, G.Dist(), wide=False)
-    return " ".join(forms)
+    while True:
+        forms = G.c05_session(rng, G.Dist(), wide=False)
+        text = " ".join(forms)
+        # the allocation-heavy "churn" scenarios are for runs WITHOUT a forced schedule (they make natural collections
+        # happen); under a collection at every instruction they only exhaust the harness's collection budget
+        if "churn" not in text and "(deep" not in text:
+            return text
 
 
 def t_thunk_cont(rng):
